@@ -273,6 +273,7 @@ func (w *worker) initStdPackage(m *machine, pkg *ssa.Package) {
 type AssertStat struct {
 	Discharged int `json:"discharged"`
 	Trivial    int `json:"trivially_true"`
+	Normalised int `json:"normalised_true_over_symbolic_operands"`
 	Violated   int `json:"violated"`
 	Unknown    int `json:"unknown"`
 }
@@ -297,29 +298,30 @@ type WitnessVal struct {
 }
 
 type HarnessResult struct {
-	Harness      string                 `json:"harness"`
-	Params       map[string]int         `json:"params"`
-	Paths        map[string]int         `json:"paths"`
-	TotalPaths   int                    `json:"total_paths"`
-	Asserts      map[string]*AssertStat `json:"asserts"`
-	Witnesses    map[string]int         `json:"witnesses"`
-	Violations   []ViolationOut         `json:"violations"`
-	NViolations  int                    `json:"n_violations"`
-	Inconclusive []string               `json:"inconclusive"`
-	NInconcl     int                    `json:"n_inconclusive"`
-	Notes        []string               `json:"notes,omitempty"`
-	Functions    map[string]int         `json:"functions"`
-	FuncInstrs   map[string]int         `json:"function_instrs"`
-	Solver       SolverStats            `json:"solver"`
-	SolverS      float64                `json:"solver_s"`
-	WallS        float64                `json:"wall_s"`
-	Steps        int64                  `json:"steps"`
-	Complete     bool                   `json:"complete"`
-	Samples      []string               `json:"samples,omitempty"`
-	NontrivPaths int                    `json:"nontrivial_paths"`
-	EngineBugs   []string               `json:"engine_bugs,omitempty"`
-	Nondets      int                    `json:"max_nondets"`
-	StoppedEarly bool                   `json:"stopped_after_violations,omitempty"`
+	Harness       string                 `json:"harness"`
+	Params        map[string]int         `json:"params"`
+	Paths         map[string]int         `json:"paths"`
+	TotalPaths    int                    `json:"total_paths"`
+	Asserts       map[string]*AssertStat `json:"asserts"`
+	Witnesses     map[string]int         `json:"witnesses"`
+	Violations    []ViolationOut         `json:"violations"`
+	NViolations   int                    `json:"n_violations"`
+	Inconclusive  []string               `json:"inconclusive"`
+	NInconcl      int                    `json:"n_inconclusive"`
+	Notes         []string               `json:"notes,omitempty"`
+	Functions     map[string]int         `json:"functions"`
+	FuncInstrs    map[string]int         `json:"function_instrs"`
+	Solver        SolverStats            `json:"solver"`
+	SolverS       float64                `json:"solver_s"`
+	WallS         float64                `json:"wall_s"`
+	Steps         int64                  `json:"steps"`
+	Complete      bool                   `json:"complete"`
+	Samples       []string               `json:"samples,omitempty"`
+	NontrivPaths  int                    `json:"nontrivial_paths"`
+	SymbolicPaths int                    `json:"symbolic_paths"`
+	EngineBugs    []string               `json:"engine_bugs,omitempty"`
+	Nondets       int                    `json:"max_nondets"`
+	StoppedEarly  bool                   `json:"stopped_after_violations,omitempty"`
 }
 
 func (e *Engine) runHarness(name string) *HarnessResult {
@@ -457,6 +459,7 @@ func (w *worker) record(r pathResult) {
 		res.Nondets = len(m.nondets)
 	}
 	nontriv := false
+	symb := false
 	for _, a := range m.asserts {
 		st := res.Asserts[a.ID]
 		if st == nil {
@@ -469,6 +472,9 @@ func (w *worker) record(r pathResult) {
 			nontriv = true
 		case "trivially-true":
 			st.Trivial++
+		case "normalised-true":
+			st.Normalised++
+			symb = true
 		case "violated", "trivially-false":
 			st.Violated++
 		case "unknown":
@@ -478,11 +484,14 @@ func (w *worker) record(r pathResult) {
 	if nontriv {
 		res.NontrivPaths++
 	}
+	if nontriv || symb {
+		res.SymbolicPaths++
+	}
 	if r.status == "done" {
 		for _, wid := range m.witnesses {
 			res.Witnesses[wid]++
 		}
-		if len(res.Samples) < 6 && nontriv {
+		if len(res.Samples) < 6 && (nontriv || symb) {
 			res.Samples = append(res.Samples, m.describePath())
 		}
 	}
